@@ -57,7 +57,10 @@ class Lognormal(Distribution):
             return self._normal.pdf(np.log(x))*np.prod(1/x)
 
     def logpdf(self, x):
-        return np.log(self.pdf(x))
+        if np.any(x<=0):
+            return -np.inf
+        # evaluated in logarithms: log(pdf(x)) is -inf as soon as the density underflows
+        return self._normal.logpdf(np.log(x)) - np.sum(np.log(x))
 
     def _gradient(self, val, *args, **kwargs):
         #Avoid complicated geometries that change the gradient.
